@@ -326,7 +326,47 @@ pub fn gen_concurrent(rng: &mut Rng, uni: &Universe, stats: &mut Stats) -> Vec<A
     h
 }
 
+/// C15: one document kept open with sync and a subscriber while its policy changes again and again;
+/// after every change entries arrive by the single-entry path and by reconciliation, with keys the
+/// successive policies decide differently. Every event's download flag must be what the policy stored
+/// at that moment says.
+fn gen_policy_history(rng: &mut Rng, uni: &Universe, stats: &mut Stats) -> Vec<AOp> {
+    let doc = rng.below(uni.docs.len() as u64) as usize;
+    let ns = uni.docs[doc].0;
+    let w = World { ns: NamespaceSecret::from_bytes(&uni.docs[doc].1), authors: uni.authors.clone() };
+    let mut h = vec![
+        AOp::Import { ns, secret: if rng.chance(1, 2) { Some(uni.docs[doc].1) } else { None } },
+        AOp::Open { ns, sync: true, sub: Some(rng.below(N_CHANS as u64) as usize) },
+    ];
+    let mut ts = T0;
+    let mut entry = |rng: &mut Rng, ts: &mut u64| {
+        *ts += 1;
+        let au = rng.below(uni.authors.len() as u64) as usize;
+        let hash = if rng.chance(1, 2) { HASH_A } else { HASH_B };
+        crate::c03::sign(&w.ns, &w.authors[au], &gen_key(rng), hash, if hash == HASH_A { 1 } else { 2 }, *ts)
+    };
+    for _ in 0..2 + rng.below(5) {
+        if rng.chance(4, 5) { h.push(AOp::SetPolicy { ns, p: gen_policy(rng) }); stats.inc("policy_change_while_open"); }
+        for _ in 0..1 + rng.below(3) {
+            if rng.chance(2, 3) {
+                h.push(AOp::InsertRemote { ns, w: entry(rng, &mut ts), st: rng.below(3) as u8, now: T0 + 10 });
+            } else {
+                let values = (0..1 + rng.below(3)).map(|_| (entry(rng, &mut ts), rng.below(3) as u8)).collect();
+                let x = iroh_docs::sync::RecordIdentifier::new(NamespaceId::from(&ns), uni.authors[0].id(), gen_key(rng));
+                let m = WMessage { parts: vec![WPart::Item { x: x.as_ref().to_vec(), y: x.as_ref().to_vec(), values, have_local: true }] };
+                h.push(AOp::SyncProcess { ns, m, now: T0 + 10 });
+            }
+        }
+        if rng.chance(1, 6) { h.push(AOp::GetPolicy { ns }); }
+        if rng.chance(1, 8) { h.push(AOp::Open { ns, sync: true, sub: None }); }
+    }
+    h
+}
+
 pub fn gen_history(pid: &str, rng: &mut Rng, uni: &Universe, stats: &mut Stats) -> Vec<AOp> {
+    if pid == "C15" && rng.chance(2, 3) {
+        return gen_policy_history(rng, uni, stats);
+    }
     let mut h = Vec::new();
     let docs: Vec<[u8; 32]> = uni.docs.iter().map(|d| d.0).collect();
     for d in &uni.docs {
@@ -347,7 +387,7 @@ pub fn gen_history(pid: &str, rng: &mut Rng, uni: &Universe, stats: &mut Stats) 
         let hash = if rng.chance(1, 2) { HASH_A } else { HASH_B };
         let len = if hash == HASH_A { 1 } else { 2 };
         let roll = rng.below(100);
-        let c12 = pid == "C12";
+        let c12 = pid != "C14";
         match roll {
             0..=11 => { stats.inc("open"); h.push(AOp::Open { ns, sync: rng.chance(1, 2), sub: if rng.chance(if c12 { 2 } else { 1 }, 4) { Some(rng.below(N_CHANS as u64) as usize) } else { None } }) }
             12..=19 => { stats.inc("close"); h.push(AOp::Close { ns }) }
@@ -423,10 +463,22 @@ pub fn gen_history(pid: &str, rng: &mut Rng, uni: &Universe, stats: &mut Stats) 
 }
 
 pub fn run(pid: &str, seed: u64, n: usize, out: &Path, _thorough: bool) -> anyhow::Result<()> {
-    let code: u64 = pid[1..].parse()?;
-    let mut rng = Rng::new(seed ^ (0xAC70 + code));
     let mut stats = Stats::default();
     let mut cw = CaseWriter::new(out, pid, "Check.Actor", 40)?;
+    run_into(pid, seed, n, &mut cw, &mut stats, None)?;
+    cw.flush()?;
+    stats.add("evaluations", cw.total as u64);
+    stats.write(out, pid)?;
+    Ok(())
+}
+
+/// The histories of `pid` (C12 or C14) written into an existing case file; `wrap` = constructor of the
+/// enclosing case type, if the file belongs to another check (C15 runs C12-style histories for the
+/// download flag of events).
+pub fn run_into(pid: &str, seed: u64, n: usize, cw: &mut CaseWriter, stats_out: &mut Stats, wrap: Option<&str>) -> anyhow::Result<()> {
+    let code: u64 = pid[1..].parse()?;
+    let mut rng = Rng::new(seed ^ (0xAC70 + code));
+    let mut stats = std::mem::take(stats_out);
     let mut distinct = std::collections::HashSet::new();
     let rt = tokio::runtime::Builder::new_multi_thread().worker_threads(2).enable_all().build()?;
     verif::set_sync_config(None);
@@ -513,7 +565,8 @@ pub fn run(pid: &str, seed: u64, n: usize, out: &Path, _thorough: bool) -> anyho
                 fin.push(format!("({}, {})", n256(&d.0), clist(&l, centry)));
             }
             drop(store);
-            let coq = format!("(mkCase {} [{}] {} {} [{}] {})", code, hist.join("; "), conc[0], conc[1], fin.join("; "), cbool(inflight_answered));
+            let coq = format!("({}mkCase {} [{}] {} {} [{}] {})", if wrap.is_some() { "Actor." } else { "" }, code, hist.join("; "), conc[0], conc[1], fin.join("; "), cbool(inflight_answered));
+            let coq = match wrap { Some(w) => format!("({} {})", w, coq), None => coq };
             let json = format!("{{\"store\":\"{}\",\"history\":[{}],\"two_concurrent_clients\":[{}],\"request_in_flight_at_shutdown_answered\":{}}}", if persistent { "file" } else { "memory" }, jh.join(","), jconc.join(","), inflight_answered);
             anyhow::Ok((coq, json, interesting))
         })?;
@@ -523,8 +576,6 @@ pub fn run(pid: &str, seed: u64, n: usize, out: &Path, _thorough: bool) -> anyho
         }
         cw.push(coq, json)?;
     }
-    cw.flush()?;
-    stats.add("evaluations", cw.total as u64);
-    stats.write(out, pid)?;
+    *stats_out = stats;
     Ok(())
 }
